@@ -187,6 +187,7 @@ LoadStatus DepsLog::Load(const string& path, State* state, string* err) {
 
   long offset = ftell(f);
   bool read_failed = false;
+  bool torn_header = false;
   int unique_dep_record_count = 0;
   int total_dep_record_count = 0;
   for (;;) {
@@ -194,6 +195,8 @@ LoadStatus DepsLog::Load(const string& path, State* state, string* err) {
     if (fread(&size, sizeof(size), 1, f) < 1) {
       if (!feof(f))
         read_failed = true;
+      else if (ftell(f) != offset)
+        torn_header = true;
       break;
     }
     bool is_deps = (size >> 31) != 0;
@@ -290,6 +293,13 @@ LoadStatus DepsLog::Load(const string& path, State* state, string* err) {
   }
 
   fclose(f);
+
+  // A partial record header (1-3 stray bytes at the end of the file) is a torn
+  // record too.  It is not worth a warning, but it must be cut off: otherwise
+  // the next session appends behind the stray bytes and everything it records
+  // is discarded by the load after that.
+  if (torn_header && !Truncate(path, offset, err))
+    return LOAD_ERROR;
 
   // Rebuild the log if there are too many dead records.
   int kMinCompactionEntryCount = 1000;
